@@ -165,6 +165,35 @@ def quant_digest(q):
     return s, desc
 
 
+TENSOR_FIELDS = ("shape", "type", "scale", "zp", "qdim", "min", "max", "qdetails", "variable", "shape_signature",
+                 "has_rank", "sparsity")
+
+
+def _short(s):
+    return s if len(s) <= 60 else "#" + _h(s.encode())
+
+
+def tensor_fields(t):
+    """Every field of a Tensor table that describes the tensor itself (not its buffer / name), as short strings
+    keyed by TENSOR_FIELDS: an absent table / vector reads like an empty one, floats are float32 hex (exact)."""
+    q = t.Quantization()
+    f = {"shape": ",".join(str(int(x)) for x in _np_list(t.ShapeAsNumpy())),
+         "type": _TT_NAME.get(t.Type(), "T%d" % t.Type()),
+         "scale": "", "zp": "", "qdim": "0", "min": "", "max": "", "qdetails": "0",
+         "variable": "1" if t.IsVariable() else "0",
+         "shape_signature": ",".join(str(int(x)) for x in _np_list(t.ShapeSignatureAsNumpy())),
+         "has_rank": "1" if t.HasRank() else "0",
+         "sparsity": "1" if t.Sparsity() is not None else "0"}
+    if q is not None:
+        f["scale"] = ",".join(float(np.float32(x)).hex() for x in _np_list(q.ScaleAsNumpy()))
+        f["zp"] = ",".join(str(int(z)) for z in _np_list(q.ZeroPointAsNumpy()))
+        f["qdim"] = str(int(q.QuantizedDimension()))
+        f["min"] = ",".join(float(np.float32(x)).hex() for x in _np_list(q.MinAsNumpy()))
+        f["max"] = ",".join(float(np.float32(x)).hex() for x in _np_list(q.MaxAsNumpy()))
+        f["qdetails"] = str(int(q.DetailsType()))
+    return {k: _short(v) for k, v in f.items()}
+
+
 def abstract(data, with_values=False):
     """Parse bytes -> abstract graph.  Raises ParseError when the plain parser cannot read the file."""
     try:
@@ -209,6 +238,7 @@ def _abstract(data, with_values):
             ent = {"name": _s(t.Name()), "shape": [int(x) for x in _np_list(t.ShapeAsNumpy())],
                    "type": _TT_NAME.get(t.Type(), "T%d" % t.Type()), "buffer": int(bi), "const": len(raw) > 0,
                    "data": _h(raw) if raw else "", "nbytes": len(raw), "quant": qs, "variable": bool(t.IsVariable())}
+            ent["fields"] = tensor_fields(t)
             if qd is not None:
                 ent["quant_desc"] = qd if len(qd["scale"]) <= 4 else {"n": len(qd["scale"]), "qdim": qd["qdim"]}
             if with_values and raw:
@@ -234,12 +264,17 @@ def _abstract(data, with_values):
             cust = bytes(op.CustomOptionsAsNumpy()) if op.CustomOptionsLength() else b""
             ins = [int(x) for x in _np_list(op.InputsAsNumpy())]
             outs = [int(x) for x in _np_list(op.OutputsAsNumpy())]
+            inter = [int(x) for x in _np_list(op.IntermediatesAsNumpy())] if op.IntermediatesLength() else []
             ops.append({"code": c["name"], "builtin": c["builtin"], "custom_code": c["custom_code"],
                         "version": c["version"], "opts_type": oname, "opts": ofields,
                         "opts_nondefault": ononde, "opts_digest": options_digest(oname, ononde),
                         "custom_opts": _h(cust) if cust else "", "custom_opts_len": len(cust),
                         "inputs": [tname(i) for i in ins], "outputs": [tname(i) for i in outs],
-                        "in_idx": ins, "out_idx": outs, "n_intermediates": int(op.IntermediatesLength())})
+                        "in_idx": ins, "out_idx": outs, "n_intermediates": int(op.IntermediatesLength()),
+                        "intermediates": [tname(i) for i in inter], "inter_idx": inter,
+                        "mutating_variable_inputs": [bool(x) for x in _np_list(op.MutatingVariableInputsAsNumpy())]
+                        if op.MutatingVariableInputsLength() else [],
+                        "custom_opts_format": int(op.CustomOptionsFormat())})
             if with_values and cust:
                 ops[-1]["custom_raw"] = cust
         sgi = [int(x) for x in _np_list(sg.InputsAsNumpy())]
